@@ -282,6 +282,23 @@ impl Prop for C09 {
 				}
 			}
 		}
+		// first segments with a ':' at every offset / of every length (the './' shield makes the result LONGER than the input)
+		for (i, n) in gen::sweep_lengths(1100, 70_000).into_iter().enumerate() {
+			if i % nshards != shard {
+				continue;
+			}
+			for (k, segs) in [vec![format!("a:{}", "b".repeat(n))], vec![format!("{}:b", "_".repeat(n)), "c".to_string()], vec!["..".to_string(), "x".to_string(), "..".to_string(), "..".to_string(), format!("{}:b", "y".repeat(n))], vec![".".to_string(), "".to_string(), "b".repeat(n)]].into_iter().enumerate() {
+				let fam = if (i + k) % 2 == 0 { Fam::Uri } else { Fam::Iri };
+				let e = match (i + k) % 4 {
+					0 | 1 => None,
+					2 => Some(Embed { full: false, scheme: None, authority: None, query: Some("q".into()), fragment: None }),
+					_ => Some(Embed { full: true, scheme: Some("s".into()), authority: None, query: None, fragment: Some("f".into()) }),
+				};
+				if !f(Case { fam, embed: e, abs: false, segs, repeat_first: None }, true) {
+					return vec![];
+				}
+			}
+		}
 		// huge segments, each followed on the same thread by a small path
 		{
 			let mut gi = 0usize;
@@ -338,7 +355,7 @@ impl Prop for C09 {
 				}
 			}
 		}
-		vec!["huge segments (1 MiB+3, 2 MiB; thorough: 64 KiB+1 .. 8 MiB+1) normalized by every route, each followed by small paths on the same thread", "all paths of <= L segments over {a, b:c, '', '.', '..'} x {absolute, relative}, stand-alone and in three embeddings"]
+		vec!["relative paths whose first segment has a ':' at every offset 0..=1100 (and the usual limits up to 70 000), stand-alone and embedded", "huge segments (1 MiB+3, 2 MiB; thorough: 64 KiB+1 .. 8 MiB+1) normalized by every route, each followed by small paths on the same thread", "all paths of <= L segments over {a, b:c, '', '.', '..'} x {absolute, relative}, stand-alone and in three embeddings"]
 	}
 
 	fn floors(_tier: Tier) -> Vec<(&'static str, u64)> {
